@@ -21,13 +21,24 @@ pub const TEXTS: &[&str] = &[
     // the same content twice: index 9 is opened with the OTHER language id (see `lang_for`)
     "Some `cde` here and teh *end*.",
     "Some `cde` here and teh *end*.",
+    // indices 10 and 11 are opened as Rust sources (see `lang_for`): the server derives an
+    // identifier dictionary from the code and rebuilds the document's linter when the set of
+    // identifiers changes — which it does between these two
+    "// This comment has a problm in it.\n// It calls hlper and teh main.\nfn main() {}\n",
+    "// This comment has a problm in it.\n// It calls hlper and teh main.\nfn main() { hlper(); }\nfn hlper() {}\n",
 ];
 
 /// The language id the editor sends when it opens document `d` with text `t`: document 0 is a
 /// Markdown file, document 1 a plain-text buffer — except that text 9 is opened as Markdown (the
 /// user switched the buffer's file type), so close + reopen can change a document's language.
 pub fn lang_for(d: usize, t: usize) -> &'static str {
-    if d == 0 || t == 9 { "markdown" } else { "plaintext" }
+    if t >= 10 {
+        "rust"
+    } else if d == 0 || t == 9 {
+        "markdown"
+    } else {
+        "plaintext"
+    }
 }
 
 #[derive(Clone, Debug, PartialEq)]
@@ -149,6 +160,9 @@ pub fn ref_lints(text: &str, lang: &str, words: &BTreeSet<String>, cfg: usize, i
             c.fill_with_curated();
             LintGroup::new_curated(dict.clone(), dialect_of(cfg)).with_lint_config(c)
         });
+        if lang == "rust" {
+            return ref_lints_rust(text, &dict, cfg, ignored);
+        }
         let parser = parser_for_cfg(lang, cfg, dict.clone());
         let doc = Document::new(text, &parser, &dict);
         let mut nonce = REF_NONCE.with(|n| n.get());
@@ -165,6 +179,48 @@ pub fn ref_lints(text: &str, lang: &str, words: &BTreeSet<String>, cfg: usize, i
         }
         lints
     })
+}
+
+/// What the server composes for a tree-sitter language: comment parser, identifier dictionary
+/// from the source merged into the document's dictionary, `CollapseIdentifiers`, a linter built
+/// over the merged dictionary. Built afresh for every call (the identifier set is part of it).
+fn ref_lints_rust(text: &str, base: &std::sync::Arc<harper_core::MergedDictionary>, cfg: usize, ignored: &[(String, Lint)]) -> Vec<Lint> {
+    use harper_core::parsers::CollapseIdentifiers;
+    use std::sync::Arc;
+    let (_, isolate, ilt) = CONFIG_EXTRAS[cfg];
+    let compose = |text: &str| -> (Box<dyn Parser>, Arc<harper_core::MergedDictionary>) {
+        let p = harper_comments::CommentParser::new_from_language_id("rust", crate::frontends::md_opts(ilt)).expect("rust is a supported language id");
+        let chars = Arc::new(s2c(text));
+        let (mut parser, dict): (Box<dyn Parser>, Arc<harper_core::MergedDictionary>) = match p.create_ident_dict(&chars) {
+            Some(id) => {
+                let mut m = (**base).clone();
+                m.add_dictionary(Arc::new(id));
+                let m = Arc::new(m);
+                (Box::new(CollapseIdentifiers::new(Box::new(p), Box::new(m.clone()))), m)
+            }
+            None => (Box::new(p), base.clone()),
+        };
+        if isolate {
+            parser = Box::new(harper_core::parsers::IsolateEnglish::new(parser, dict.clone()));
+        }
+        (parser, dict)
+    };
+    let (parser, dict) = compose(text);
+    let mut c = lint_cfg(cfg);
+    c.fill_with_curated();
+    let mut group = LintGroup::new_curated(dict.clone(), dialect_of(cfg)).with_lint_config(c);
+    let doc = Document::new(text, &parser, &dict);
+    let mut lints = group.lint(&doc);
+    if !ignored.is_empty() {
+        let mut ig = IgnoredLints::new();
+        for (t, l) in ignored {
+            let (p2, d2) = compose(t);
+            let d = Document::new(t, &p2, &d2);
+            ig.ignore_lint(l, &d);
+        }
+        ig.remove_ignored(&mut lints, &doc);
+    }
+    lints
 }
 
 /// Reference diagnostics as sorted JSON (range + message).
@@ -434,6 +490,8 @@ pub fn ops() -> Vec<Op> {
         Op::Shutdown,
         Op::Ignore(0),
         Op::Ignore(1),
+        Op::Open(1, 10),
+        Op::Change(1, 11),
     ]
 }
 
